@@ -196,13 +196,17 @@ theorem mkState_pid (env : Env) (pid : Bytes) (idx ts pc : Nat) (mode : Bytes) (
 theorem mkState_ts (env : Env) (pid : Bytes) (idx ts pc : Nat) (mode : Bytes) (total : Nat) (nt : Bytes) (pp : UInt8) :
     (mkState env pid idx ts pc mode total nt pp).timestamp = ts := rfl
 
-theorem clearD_doSave (env : Env) (cfg : Config) (st : St) (s : State) (hts : s.timestamp ≤ u64Max) :
-    clearD env.isDir s.pipelineId (doSave env cfg st s).fs = clearD env.isDir s.pipelineId st.fs := by
+theorem clearD_doSave (env : Env) (cfg : Config) (fails : Bool) (st : St) (s : State) (hts : s.timestamp ≤ u64Max) :
+    clearD env.isDir s.pipelineId (doSave env cfg fails st s).fs = clearD env.isDir s.pipelineId st.fs := by
   have h := clearD_saveD env.isDir env.dirListable cfg.max st.fs s hts
   unfold doSave
-  cases hs : saveD env.isDir env.dirListable cfg.max st.fs s with
-  | none => rfl
-  | some fs' => rw [hs] at h; exact h
+  cases fails with
+  | true => rfl
+  | false =>
+    simp only [Bool.false_eq_true, if_false]
+    cases hs : saveD env.isDir env.dirListable cfg.max st.fs s with
+    | none => rfl
+    | some fs' => rw [hs] at h; exact h
 
 theorem shouldCk_fs (env : Env) (cfg : Config) (st : St) (idx : Nat) (b : Bool) :
     (shouldCk env cfg st idx b).2.fs = st.fs := by
@@ -213,7 +217,7 @@ theorem clearD_afterNode (env : Env) (cfg : Config) (pid : Bytes) (total idx : N
   simp only [afterNode]
   split
   · unfold seqState
-    have h := clearD_doSave env cfg
+    have h := clearD_doSave env cfg (storeFails env idx)
       { (shouldCk env cfg st idx (isBarrier node)).2 with tick := (shouldCk env cfg st idx (isBarrier node)).2.tick + 1 }
       (mkState env pid idx (stampOf (env.clock (shouldCk env cfg st idx (isBarrier node)).2.tick)) 1
         (ascii "sequential") total (nodeType node) (env.progress idx total))
@@ -253,8 +257,8 @@ theorem clear_idem (pid : Bytes) (fs : FS) : clear pid (clear pid fs) = clear pi
   intro f _
   simp
 
-theorem clearD_clearRun (env : Env) (pid : Bytes) (fs : FS) :
-    clearD env.isDir pid (clearRun env pid fs) = clearD env.isDir pid fs := by
+theorem clearD_clearRun (env : Env) (total : Nat) (pid : Bytes) (fs : FS) :
+    clearD env.isDir pid (clearRun env total pid fs) = clearD env.isDir pid fs := by
   unfold clearRun
   split
   · exact clearD_idem _ _ _
@@ -262,18 +266,22 @@ theorem clearD_clearRun (env : Env) (pid : Bytes) (fs : FS) :
 
 /-! ## recovery -/
 
-/-- the checkpoint directory can be created and — when recovery will look into it — listed -/
+/-- the checkpoint directory can be created and — when recovery will look into it (`auto_recover`, and the path
+    `exists()`) — listed -/
 def DirUsable (env : Env) (cfg : Config) : Prop :=
-  env.dirCreatable = true ∧ (cfg.autoRecover = true → env.dirListable = true)
+  env.dirCreatable = true ∧ (cfg.autoRecover = true → env.dirExists = true → env.dirListable = true)
 
 theorem recover_ok_of_noCrash (env : Env) (cfg : Config) (pid : Bytes) (fs : FS)
-    (hl : cfg.autoRecover = true → env.dirListable = true)
+    (hl : cfg.autoRecover = true → env.dirExists = true → env.dirListable = true)
     (h : ∀ bytes, NoCrash (load env.H env.dec bytes)) : ∃ lg, recover env cfg pid fs = .ok lg := by
   unfold recover
   cases ha : cfg.autoRecover with
   | false => exact ⟨_, rfl⟩
   | true =>
-    rw [hl ha]
+    cases he : env.dirExists with
+    | false => exact ⟨_, rfl⟩
+    | true =>
+    rw [hl ha he]
     simp only [Bool.not_true, Bool.false_eq_true, if_false]
     split
     · exact ⟨_, rfl⟩
@@ -293,33 +301,41 @@ theorem recover_ok_of_noCrash (env : Env) (cfg : Config) (pid : Bytes) (fs : FS)
     `load_checkpoint` on the newest own-named regular file -/
 theorem recover_cases (env : Env) (cfg : Config) (pid : Bytes) (fs : FS) :
     (∃ lg, recover env cfg pid fs = .ok lg) ∨
-    (cfg.autoRecover = true ∧ env.dirListable = false ∧ recover env cfg pid fs = .error .readDir) ∨
+    (cfg.autoRecover = true ∧ env.dirExists = true ∧ env.dirListable = false ∧
+      recover env cfg pid fs = .error .readDir) ∨
     (∃ name bytes e, cfg.autoRecover = true ∧ env.dirListable = true ∧ latestD env.isDir pid fs = some name ∧
-      env.isDir name = false ∧ read fs name = some bytes ∧
+      env.isDir name = false ∧ env.tooBig name = false ∧ read fs name = some bytes ∧
       load env.H env.dec bytes = .error e ∧ kills e = true ∧ recover env cfg pid fs = .error (.died e)) := by
   cases hr : cfg.autoRecover with
   | false => left; exact ⟨.off, by simp [recover, hr]⟩
   | true =>
+    cases hex : env.dirExists with
+    | false => left; exact ⟨.nothing, by simp [recover, hr, hex]⟩
+    | true =>
     cases hli : env.dirListable with
-    | false => right; left; exact ⟨rfl, rfl, by simp [recover, hr, hli]⟩
+    | false => right; left; exact ⟨rfl, rfl, rfl, by simp [recover, hr, hex, hli]⟩
     | true =>
     cases hl : latestD env.isDir pid fs with
-    | none => left; exact ⟨.nothing, by simp [recover, hr, hli, hl]⟩
+    | none => left; exact ⟨.nothing, by simp [recover, hr, hex, hli, hl]⟩
     | some name =>
       cases hd : env.isDir name with
-      | true => left; exact ⟨.unreadable, by simp [recover, hr, hli, hl, readD, hd]⟩
+      | true => left; exact ⟨.unreadable, by simp [recover, hr, hex, hli, hl, readD, hd]⟩
+      | false =>
+      cases hb : env.tooBig name with
+      | true => left; exact ⟨.unreadable, by simp [recover, hr, hex, hli, hl, readD, hd, hb]⟩
       | false =>
       cases hrd : read fs name with
-      | none => left; exact ⟨.unreadable, by simp [recover, hr, hli, hl, readD, hd, hrd]⟩
+      | none => left; exact ⟨.unreadable, by simp [recover, hr, hex, hli, hl, readD, hd, hb, hrd]⟩
       | some bytes =>
         cases hld : load env.H env.dec bytes with
-        | ok s => left; exact ⟨.loaded s, by simp [recover, hr, hli, hl, readD, hd, hrd, hld]⟩
+        | ok s => left; exact ⟨.loaded s, by simp [recover, hr, hex, hli, hl, readD, hd, hb, hrd, hld]⟩
         | error e =>
           cases hk : kills e with
-          | false => left; exact ⟨.rejected e, by simp [recover, hr, hli, hl, readD, hd, hrd, hld, hk]⟩
+          | false => left; exact ⟨.rejected e, by simp [recover, hr, hex, hli, hl, readD, hd, hb, hrd, hld, hk]⟩
           | true =>
             right; right
-            exact ⟨name, bytes, e, rfl, rfl, rfl, hd, hrd, hld, hk, by simp [recover, hr, hli, hl, readD, hd, hrd, hld, hk]⟩
+            exact ⟨name, bytes, e, rfl, rfl, rfl, hd, hb, hrd, hld, hk,
+              by simp [recover, hr, hex, hli, hl, readD, hd, hb, hrd, hld, hk]⟩
 
 /-! ## a directory holding one well-formed checkpoint file -/
 
